@@ -429,7 +429,7 @@ func derivesFromOrderElem(ct *container, v ssa.Value) bool {
 func c19sib(c *core.Ctx) {
 	const R = "C19.sib"
 	c.Rule(R, "the generated ordered-map instances (RuleASTNodes, ASTNodes, Constraints) have pairwise identical method bodies after abstracting key/value/type names: a change applied to one copy only is a disagreement")
-	c.Floor(R, 30)
+	c.Floor(R, 20)
 	cts := containers(c, R)
 	var maps []*container
 	for _, ct := range cts {
